@@ -143,15 +143,27 @@ def witnessArrayParenFn : List Tok :=
   [fstart "ARRAY", fstart "ARRAYROW", ⟨"", .subexpr, .start⟩, fstart "SUM", num "1", fstop,
    ⟨"", .subexpr, .stop⟩, fstop, fstop]
 
+/-- regression of the repaired defect "a function call inside an array constant closes the
+array row instead of itself" (`{(SUM(1))}`, `{1,(SUM(1))}`, `MAX({(SUM(1))})` panicked in
+`parseToken` / `prepareEvalInfixExp`; found by enumerating this model over all nested
+5-token lists; repository fix fecba5e: the evaluator remembers `opfStack.Len()` where the
+array constant started). -/
+theorem fixed_array_paren_function_witness :
+    nested [] 0 witnessArrayParenFn = true ∧ evalTokens semU witnessArrayParenFn = .ok () := by decide
+
+/-- tokens efp emits for `SUM(({{1}}))` -/
+def witnessNestedArray : List Tok :=
+  [fstart "SUM", ⟨"", .subexpr, .start⟩, fstart "ARRAY", fstart "ARRAYROW", fstart "ARRAY", fstart "ARRAYROW",
+   num "1", fstop, fstop, fstop, fstop, ⟨"", .subexpr, .stop⟩, fstop]
+
 /-- **Open finding (code and model agree): the "no array constant" hypothesis of
-`eval_no_panic_functions` is necessary.**  `{(SUM(1))}` — a function call inside a
-parenthesis inside an array constant — is properly nested, yet the array flags make the
-call's Function Stop close the array row instead of the call; `SUM` stays on the function
-stack and the `)` empties `opftStack` (`Peek().(efp.Token)` on nil in `parseToken`).  Found by
-enumerating the model over all nested lists of 5 tokens; reproduced on the real code
-(`CalcCellValue` of `{(SUM(1))}` panics); left open under the fix freeze. -/
-theorem finding_array_paren_function_panics :
-    nested [] 0 witnessArrayParenFn = true ∧ evalTokens semU witnessArrayParenFn = .panic := by decide
+`eval_no_panic_functions` is still necessary.**  A NESTED array constant — `SUM(({{1}}))` — is
+properly nested as a token list, but the two array flags are booleans: the inner constant's
+stop tokens clear them, the outer constant's stop tokens then close `SUM` itself, and the
+`)` finds `optStack` empty.  Reproduced on the real code after fix fecba5e; a repair needs
+a counter (or stack) of open array constants instead of two booleans. -/
+theorem finding_nested_array_constant_panics :
+    nested [] 0 witnessNestedArray = true ∧ evalTokens semU witnessNestedArray = .panic := by decide
 
 /-! ## deep nesting ("deep nesting … in bounded time without panicking": no stack overflow) -/
 
